@@ -19,8 +19,9 @@ LEVEL = "model_checking"
 RULE = ("TLC enumerates every canonical training multiset of the TreeGrow scope x criteria x max_depth x "
         "min_samples_leaf x min_samples_split (exhaustive for that scope) and a hash-sampled subset of the "
         "terminal trees is replayed through the real code; seeded random fits: 2..150 rows, 1..6 features "
-        "(small-integer, pairwise-distinct, continuous, dyadic, constant/binary mixtures), 2..5 classes with "
-        "arbitrary labels / dyadic targets, 3 criteria, max_depth None|1..8, min_samples_leaf 1..5, "
+        "(small-integer, pairwise-distinct, continuous, dyadic, constant/binary mixtures), 2..5 classes (one case with 300) with "
+        "arbitrary float labels (integers, fractional between 0 and k-1, colliding under truncation, closer than epsilon, huge, "
+        "signed zero; carried as order-preserving codes) / dyadic targets, 3 criteria, max_depth None|1..8, min_samples_leaf 1..5, "
         "min_samples_split 0..8, through DenseMatrix<f64> (65%), DenseMatrix<f32>, ndarray (column- and row-major) and nalgebra, "
         "inherent and api-trait entry points, structured row orders, sizes around powers of two up to 1025 (2049 thorough), "
         "each fitted twice and (half of them) on features*2^j, j in -200..200 and 1023 / 127 (near overflow). A fit is non-trivial "
@@ -31,7 +32,8 @@ RULE = ("TLC enumerates every canonical training multiset of the TreeGrow scope 
 MUST_HIT = ("TreeFit", "Cls", "Reg", "DepthLimited", "LeafLimit", "OptReg", "CompleteReg", "SideCond", "OptGini",
             "OptEntropy", "OptError", "CompleteCls", "Reproduce", "Refit", "Scaled", "ScaledFar", "ArgSort", "Replayed",
             "Adjacent", "F32", "NdarrayF", "NdarrayC", "Nalgebra", "NearMax", "Ordered", "Ladder", "TraitEntry",
-            "SortPattern", "SortLadder")
+            "SortPattern", "SortLadder", "LabelFractional", "LabelColliding", "LabelTiny", "LabelHuge",
+            "LabelSignedZero", "ManyClasses")
 
 
 def leaf_rows(e):
@@ -95,10 +97,11 @@ def key_of(e, clause):
     if e["ev"] == "Refit" or (e["ev"] == "Scaled" and clause == "ScaleInvariant"):
         far = abs(e.get("shift") or 0) >= 50
         return "%s %s(%s, %s): %s" % (e["ev"], "by 2^+-50 or more " if far else "", e.get("backend"), e.get("family"), clause)
-    return "%s/%s %s (%s features%s%s, max_depth %s, min_samples_leaf %s, min_samples_split %s)" % (
+    return "%s/%s %s (%s features%s%s%s, max_depth %s, min_samples_leaf %s, min_samples_split %s)" % (
         e["kind"], e["crit"], clause, e.get("family"),
         "" if e.get("backend", "dense") == "dense" else " via " + e["backend"],
-        " scaled by 2^%d" % e["shift"] if e.get("shift") else "", "none" if e["maxDepth"] == 0 else "set",
+        " scaled by 2^%d" % e["shift"] if e.get("shift") else "",
+        ", %s labels" % e["labelFamily"] if e.get("kind") == "cls" and e.get("labelFamily") not in (None, "none", "fixed", "model", "ladder", "integers") else "", "none" if e["maxDepth"] == 0 else "set",
         "1" if e["msl"] == 1 else ">1", "<=1" if e["mss"] <= 1 else ">1")
 
 
